@@ -33,6 +33,7 @@ def cmp : Val → Bool
   | .tname _ _ _ => false     -- no hash key at all: `EqComparable` only
   | .deferred _ _ => false
   | .param _ _ _ _ _ => false
+  | .obj _ _ => false
   | _ => true
 def cmpL : List Val → Bool
   | [] => true
@@ -63,6 +64,7 @@ def ecmp : Val → Bool
   | .timestamp a b => (minInt ≤ a && a ≤ maxInt) && (minInt ≤ b && b ≤ maxInt)
   | .deferred _ as => ecmpL as
   | .param _ t _ v _ => TyWF t && ecmp v
+  | .obj _ _ => false          -- (stage 1: object instances are in the model and in the correspondence run, not yet in a theorem)
   | _ => true
 def ecmpL : List Val → Bool
   | [] => true
@@ -128,9 +130,9 @@ variable {P : Val → Prop}
   (htspan : ∀ n, P (.timespan n)) (htstamp : ∀ a b, P (.timestamp a b))
   (huri : ∀ s, P (.uri s)) (hsemver : ∀ v, P (.semver v)) (hvrange : ∀ o rs, P (.vrange o rs))
   (htname : ∀ a n m, P (.tname a n m)) (hdeferred : ∀ n as, (∀ v ∈ as, P v) → P (.deferred n as))
-  (hparam : ∀ n t h v c, P v → P (.param n t h v c))
+  (hparam : ∀ n t h v c, P v → P (.param n t h v c)) (hobj : ∀ t vs, (∀ v ∈ vs, P v) → P (.obj t vs))
 include hundef hdflt hbool hint hfloat hstr hregexp hbinary harray hhash hentry hsens htyp htspan htstamp
-  huri hsemver hvrange htname hdeferred hparam
+  huri hsemver hvrange htname hdeferred hparam hobj
 
 mutual
 theorem Val.ind : ∀ x : Val, P x
@@ -149,6 +151,7 @@ theorem Val.ind : ∀ x : Val, P x
   | .tname a n m => htname a n m
   | .deferred n as => hdeferred n as (Val.indL as)
   | .param n t h v c => hparam n t h v c (Val.ind v)
+  | .obj t vs => hobj t vs (Val.indL vs)
 theorem Val.indL : ∀ vs : List Val, ∀ v ∈ vs, P v
   | [], _, h => by simp at h
   | w :: ws, v, hv => by
@@ -336,6 +339,7 @@ theorem veq_refl_e : ∀ x : Val, ecmp x = true → veq x x = true := by
   · intro n t hv v c ih h
     simp only [ecmp, Bool.and_eq_true] at h
     simp [veq, tyEq_refl t h.1, ih h.2]
+  · intro t vs _ h; simp [ecmp] at h
 
 /-! ## symmetry -/
 
@@ -461,6 +465,7 @@ theorem veq_symm_e : ∀ x y : Val, ecmp x = true → ecmp y = true → veq x y 
     rename_i n' t' hv' v' c'
     simp only [ecmp, Bool.and_eq_true] at cx cy
     rw [ih v' cx.2 cy.2, tyEq_symm t t', beq_swap n n', beq_swap hv hv', beq_swap c c']
+  · intro t vs _ y h; simp [ecmp] at h
 
 /-! ## transitivity -/
 
@@ -567,6 +572,7 @@ theorem veq_trans_e : ∀ x y z : Val, ecmp x = true → ecmp y = true → veq x
     simp only [ecmp, Bool.and_eq_true] at cx cy
     intro e1 e2 e3 h1 h2 f1 f2 f3 g1 g2
     exact ⟨⟨⟨⟨e1.trans f1, e2.trans f2⟩, e3.trans f3⟩, tyEq_trans _ _ _ h1 g1⟩, ih v' v'' cx.2 cy.2 h2 g2⟩
+  · intro t vs _ y z h; simp [ecmp] at h
 
 /-! ## `Comparable` is `EqComparable` plus "has a hash key" -/
 
@@ -602,6 +608,7 @@ theorem keyable_of_cmp : ∀ x : Val, cmp x = true → keyable x = true := by
   · intro a n m h; simp [cmp] at h
   · intro n as _ h; simp [cmp] at h
   · intro n t hv v c _ h; simp [cmp] at h
+  · intro t vs _ h; simp [cmp] at h
 
 theorem ecmp_of_cmp : ∀ x : Val, cmp x = true → ecmp x = true := by
   have hl : ∀ vs : List Val, (∀ v ∈ vs, cmp v = true → ecmp v = true) → cmpL vs = true → ecmpL vs = true := by
@@ -652,6 +659,7 @@ theorem ecmp_of_cmp : ∀ x : Val, cmp x = true → ecmp x = true := by
   · intro a n m h; simp [cmp] at h
   · intro n as _ h; simp [cmp] at h
   · intro n t hv v c _ h; simp [cmp] at h
+  · intro t vs _ h; simp [cmp] at h
 
 theorem veq_refl (x : Val) (h : cmp x = true) : veq x x = true := veq_refl_e x (ecmp_of_cmp x h)
 
